@@ -18,7 +18,7 @@ def run(prop, tier, seed, replay=None):
         rec = os.path.join(work, "records.ndjson")
         env = dict(vp.GOENV, TMPDIR=work)
         mode = "kill" if prop == "C08" else "second"
-        every = (3 if q else 1) if prop == "C08" else (9 if q else 2)
+        every = 1 if prop == "C08" else (9 if q else 2)      # the kill sweep is cheap (about 35 kill points): every point in both tiers
         rc.run_vh(vh, ["agentlife", "-bin", binary, "-mode", mode, "-every", str(every), "-out", rec], env=env, timeout=3000)
         verdicts, consumed = rc.observe_records(work, "AgentLifeObserve", rec, nchunks=1)
         for v in verdicts:
@@ -61,9 +61,9 @@ def run(prop, tier, seed, replay=None):
             rep.cov["model_checking_runs"] = first["model_checking_runs"] + rep.cov["label_stage"].get("model_checking_runs", [])
             rep.cov["samples"] = first["samples"]
             rep.cov["exhaustive"] = False
-            rep.cov["rule"] = ("the real binary runs `start` on a 2-step DAG with an exit handler under ptrace; it is SIGKILLed at the entry of every %s relevant system call "
+            rep.cov["rule"] = ("the real binary runs `start` on a 2-step DAG with a success and an exit handler under ptrace; it is SIGKILLed at the entry of every relevant system call%s "
                                "(history, log, marker, status socket; whole process group), then the real client's GetLatestStatus is asked, the DAG is started again with the real binary and "
-                               "must run to completion and be recorded; plus the unkilled control run; distinct = kill points" % ("3rd" if q else ""))
+                               "must run to completion and be recorded; plus the unkilled control run; distinct = kill points" % "")
             rep.assumptions += ["live / final truth is checked on three unkilled runs of the real binary (all succeed; failure with retry and continueOn plus a blocked step; unmet precondition) polled every 40 ms",
                                 "a final status that becomes visible a moment before the process exits is accepted as live answer"]
         else:
